@@ -17,10 +17,13 @@ def sh(cmd, **kw):
 
 
 def main():
-    args = [a for a in sys.argv[1:] if not a.startswith("--")]
+    argv = sys.argv[1:]
     tier = "quick"
-    if "--tier" in sys.argv:
-        tier = sys.argv[sys.argv.index("--tier") + 1]
+    if "--tier" in argv:
+        i = argv.index("--tier")
+        tier = argv[i + 1]
+        del argv[i:i + 2]
+    args = [a for a in argv if not a.startswith("--")]
     scratch = "--scratch" in sys.argv
     ids = args or sorted(d for d in os.listdir(os.path.join(V, "seeded")) if os.path.isdir(os.path.join(V, "seeded", d)))
     dirty = sh(f"git -C {REPO} status --porcelain --untracked-files=no").stdout.strip()
